@@ -505,7 +505,8 @@ class ArgumentParser:
         # (compared as directories: "inc", "inc/" and "./inc" are the same;
         # ".." is left alone, "link/.." need not be ".")
         def directory(p):
-            return p if ".." in p.split(os.sep) else os.path.normpath(p)
+            parts = [c for c in p.split(os.sep) if c not in ["", "."]]
+            return (os.sep if os.path.isabs(p) else "") + os.sep.join(parts)
 
         system_dirs = {directory(p) for p in args.system_include_paths}
         args.include_paths = [
